@@ -996,6 +996,13 @@ func (c *Ctx) Show(t *Term) string {
 	return s
 }
 
+// ShowFull prints a term without truncation (debugging aid).
+func (c *Ctx) ShowFull(t *Term) string {
+	var sb strings.Builder
+	c.print(&sb, t, nil)
+	return sb.String()
+}
+
 func (c *Ctx) litText(t *Term) string {
 	switch t.op {
 	case "true", "false":
